@@ -75,6 +75,12 @@ func (f *Mod) Call(s *slip.Scope, args slip.List, depth int) (result slip.Object
 			_ = z.Add(&z, div)
 		}
 		result = (*slip.Bignum)(&z)
+	case *slip.Ratio:
+		div := (*big.Rat)(d.(*slip.Ratio))
+		if div.Sign() == 0 {
+			slip.ArithmeticPanic(s, depth, slip.Symbol("/"), args, "divide by zero")
+		}
+		result = remRatio((*big.Rat)(num), div, true)
 	case slip.Real:
 		div := (d.(slip.Real)).RealValue()
 		if div == 0.0 {
